@@ -113,10 +113,20 @@ def run_bign96(ctx, c):
     Qb = mQb
     # sign
     stape = b96_tape(c, "rejk", q, p, k)
-    sig = x.out(34)
-    r = x.call("bign96Sign", sig, P, OID, len(oid), x.buf(H), dk, GEN, x.tape(stape, mode=2))
+    # hash and signature in separate blocks or adjacent in one block, in either order (disjoint; bign96.h refuses only an overlap)
+    lay = len(c["seed"]) % 3
+
+    def place():
+        if lay == 0:
+            return x.out(34), x.buf(H)
+        if lay == 1:
+            blk = x.buf(H + b"\xCC" * 34); return blk.at(len(H)), blk
+        blk = x.buf(b"\xCC" * 34 + H); return blk, blk.at(34)
+    sig, HB = place()
+    r = x.call("bign96Sign", sig, P, OID, len(oid), HB, dk, GEN, x.tape(stape, mode=2))
     if r:
-        raise Fail("bign96Sign failed: %s (h=%s d=%s)" % (ename(r), c["h"], c["d"]))
+        raise Fail("bign96Sign failed: %s (h=%s d=%s, layout %d)" % (ename(r), c["h"], c["d"], lay))
+    sig = x.buf(sig.read(0, 34))
     msig, _ = RB.sign96_from_tape(oid, H, md, stape + b"\xff" * n, top_bit=TOP)
     if sig.read() != msig:
         raise Fail("bign96Sign != model (h=%s d=%x k=%x oid=%s): %s vs %s" % (H.hex(), md, k, c["oid"], sig.read().hex(), msig.hex()))
@@ -125,10 +135,11 @@ def run_bign96(ctx, c):
         raise Fail("bign96Verify rejects a fresh signature: %s (h=%s d=%x k=%x)" % (ename(r), H.hex(), md, k))
     # deterministic signature
     tt = None if c["t"] is None else expand(c["seed"] + "t", c["t"])
-    sig2 = x.out(34)
-    r = x.call("bign96Sign2", sig2, P, OID, len(oid), x.buf(H), dk, x.buf(tt) if tt is not None else None, len(tt) if tt is not None else 0)
+    sig2, HB = place()
+    r = x.call("bign96Sign2", sig2, P, OID, len(oid), HB, dk, x.buf(tt) if tt is not None else None, len(tt) if tt is not None else 0)
     if r:
-        raise Fail("bign96Sign2 failed: %s" % ename(r))
+        raise Fail("bign96Sign2 failed: %s (layout %d)" % (ename(r), lay))
+    sig2 = x.buf(sig2.read(0, 34))
     msig2 = RB.sign96_2(oid, H, md, tt, top_bit=TOP)
     if sig2.read() != msig2:
         raise Fail("bign96Sign2 != model (h=%s d=%x t=%s): %s vs %s" % (H.hex(), md, c["t"], sig2.read().hex(), msig2.hex()))
